@@ -243,70 +243,54 @@ def run(ctx, res):
             res.bad("C02.R2", site(f, "constructs"), "%s has no path that returns an iterator" % f.name, f.loc(f.body))
 
     # ---- R3 bytes_compare ----------------------------------------------------------------
+    # Decided by interpretation (allocation-aware interpreter, memcmp on known bytes): for every pair of byte strings of
+    # length 0..2 (3 thorough) over {00, 7f, 80, ff} the sign of bytes_compare(a, b) is the sign of the unsigned
+    # lexicographic comparison with the shorter string first on a common prefix - whatever the function looks like.
     res.floor("C02.R3", 5)
     bc = prog.need("bytes_compare", "mtbl/reader.c")
     res.saw(bc)
-    evb = APE.run(prog, cg, bc, bound=APE.BOUND)
-    mc = bc.calls("memcmp")
-    if len(mc) != 1:
-        raise BrokenAnalysis("bytes_compare: expected one memcmp call")
-    a = call_args(mc[0])
-    res.check(arg_role(bc, a[0]) == ("param", 0) and arg_role(bc, a[1]) == ("param", 2), "C02.R3", site(bc, "memcmp-operands"),
-              "memcmp(a, b, ...)", "memcmp operands are (%s, %s)" % (canon(a[0]), canon(a[1])), bc.loc(mc[0]))
-    # compared length = min(len_a, len_b)
-    ln = strip(a[2])
-    inits = decl_inits(bc)
-    if ln["k"] == "DeclRefExpr" and ln["name"] in inits:
-        ln = strip(inits[ln["name"]])
-    okmin = False
-    if ln["k"] == "ConditionalOperator":
-        c, t, e = [strip(x) for x in ln["kids"]]
-        if c["k"] == "BinaryOperator" and c.get("op") in ("<", "<=", ">", ">="):
-            l, r = canon(c["kids"][0]), canon(c["kids"][1])
-            la, lb = bc.params[1]["name"], bc.params[3]["name"]
-            if {l, r} == {la, lb}:
-                smaller_when_true = l if c["op"] in ("<", "<=") else r
-                okmin = canon(t) == smaller_when_true and canon(e) == ({la, lb} - {smaller_when_true}).pop()
-    res.check(okmin, "C02.R3", site(bc, "compared-length"), "memcmp over min(len_a, len_b)", "compared length is %s" % canon(ln), bc.loc(mc[0]))
-    for p in evb.paths:
-        if p.end != "exit":
-            continue
-        m = l = None
-        for (x, y), v in p.cons.items():
-            if x.startswith("memcmp(") and y == "#0":
-                m = v
-            elif x == bc.params[1]["name"] and y == bc.params[3]["name"]:
-                l = v
-            elif y == bc.params[1]["name"] and x == bc.params[3]["name"]:
-                l = APE.mirror(v)
-        r = p.ret()
-        if not p.calls("memcmp"):
-            # nothing compared (common length 0 short-cut): the result must still follow the length relation
-            good = (l == frozenset((EQ,)) and r == ("c", 0)) or (l == frozenset((LT,)) and r[0] == "c" and r[1] < 0) or \
-                   (l == frozenset((GT,)) and r[0] == "c" and r[1] > 0)
-            res.check(good, "C02.R3", site(bc, "no-bytes-compared:len%s" % ("".join(sorted(l)) if l else "-")),
-                      "without comparing bytes the result is the sign of the length relation",
-                      "bytes_compare returns %s without comparing any byte although the lengths may differ (%s): the empty key compares equal to every key"
-                      % (APE.vstr(r), sorted(l) if l else "unconstrained"), bc.loc(bc.body), p.describe(bc))
-            continue
-        memsym = [e.c for e in p.calls("memcmp")][0]
-        sig = site(bc, "mem%s:len%s" % ("".join(sorted(m)) if m else "-", "".join(sorted(l)) if l else "-"))
-        if m is not None and EQ not in m:
-            res.check(r == memsym, "C02.R3", sig, "bytes differ: memcmp sign returned", "bytes differ but %s is returned" % APE.vstr(r), None, p.describe(bc))
-        elif m == frozenset((EQ,)):
-            if l is None:
-                res.bad("C02.R3", sig, "equal common prefix: result does not depend on the lengths", bc.loc(bc.body), p.describe(bc))
-            elif l == frozenset((LT,)):
-                res.check(r[0] == "c" and r[1] < 0, "C02.R3", sig, "proper prefix sorts first", "shorter operand compares %s" % APE.vstr(r))
-            elif l == frozenset((EQ,)):
-                res.check(r == ("c", 0), "C02.R3", sig, "equal strings compare 0", "equal strings compare %s" % APE.vstr(r))
-            elif l == frozenset((GT,)):
-                res.check(r[0] == "c" and r[1] > 0, "C02.R3", sig, "extension sorts after its prefix", "longer operand compares %s" % APE.vstr(r))
-            else:
-                res.bad("C02.R3", sig, "length relation %s not separated" % sorted(l), bc.loc(bc.body), p.describe(bc))
-        else:
-            # m unconstrained and the result is the memcmp value
-            res.check(r == memsym and (m is None or m == ALL), "C02.R3", sig, "memcmp sign returned", "unexpected case", None, p.describe(bc))
+    from mtblcheck import bits as _B
+    from mtblcheck import memmodel as _M
+    import itertools
+    alpha = [0x00, 0x7f, 0x80, 0xff]
+    maxlen = 3 if ctx.tier == "thorough" else 2
+    strs = [bytes(t) for n_ in range(maxlen + 1) for t in itertools.product(alpha, repeat=n_)]
+    classes = {"lt": [], "eq": [], "gt": [], "prefix-lt": [], "prefix-gt": []}
+    npairs = 0
+    try:
+        for x in strs:
+            for y in strs:
+                I = _M.MemInterp(prog, "mtbl/reader.c")
+                st = I.new_state()
+                h = st.ext["heap"]
+                ptrs = []
+                for data in (x, y):
+                    k0 = h.next
+                    h.allocs[k0] = [len(data), True, False]       # exactly the string: reading past its end is a fault
+                    h.next = k0 + 1
+                    for i, c in enumerate(data):
+                        st.mem[(("A", k0), i)] = tuple((c >> j) & 1 for j in range(8))
+                    ptrs.append(_B.Ptr(("A", k0), 0))
+                outs = I.call(st, bc, [ptrs[0], len(x), ptrs[1], len(y)])
+                npairs += 1
+                want = (x > y) - (x < y)
+                kind = "eq" if x == y else ("prefix-lt" if y.startswith(x) else "prefix-gt" if x.startswith(y) else "lt" if x < y else "gt")
+                for s2, r in outs:
+                    r = s2.nbits(r) if isinstance(r, _B.BV) else None
+                    got = None
+                    if r is not None and r.is_const():
+                        v = r.value()
+                        if v >= 1 << (r.width - 1):
+                            v -= 1 << r.width
+                        got = (v > 0) - (v < 0)
+                    if got != want:
+                        classes[kind].append("bytes_compare(%s, %s) has sign %s, expected %d" % (x.hex() or "''", y.hex() or "''", got, want))
+    except _M.MemFault as e:
+        classes["eq"].append(str(e))
+    for kind, what in (("lt", "first differing byte smaller (as unsigned)"), ("gt", "first differing byte larger (as unsigned)"), ("eq", "equal strings"),
+                       ("prefix-lt", "proper prefix sorts first"), ("prefix-gt", "extension sorts after its prefix")):
+        res.check(not classes[kind], "C02.R3", site(bc, kind), "%s: sign as in the unsigned lexicographic order (%d pairs interpreted)" % (what, npairs),
+                  "; ".join(classes[kind][:2]), bc.loc(bc.body))
     # signed char rule
     n_rel = 0
     offenders = _signed_char_relations(prog.lib_funcs())
